@@ -427,6 +427,31 @@ func main() {
 							r.Violation("plugin-run-after-cancellation", fmt.Sprintf("tree %s cancel@event %d (%v): %s %s ran afterwards", ts, at, evAt(full.events, at), e.kind, e.who), rp)
 						}
 					}
+					// the traversal itself stops too: after the cancellation instant at most one further
+					// inode is visited (the one at which the walk notices), and a tree that was not walked
+					// to its end is a failed scan even if nothing that remained was required by anyone
+					inodesAfter, inodesGot, inodesFull := 0, 0, 0
+					for _, e := range o.events[pre:] {
+						if e.kind == "inode" {
+							inodesAfter++
+						}
+					}
+					for _, e := range o.events {
+						if e.kind == "inode" {
+							inodesGot++
+						}
+					}
+					for _, e := range full.events {
+						if e.kind == "inode" {
+							inodesFull++
+						}
+					}
+					if inodesAfter > 1 {
+						r.Violation("walk-continues-after-cancellation", fmt.Sprintf("tree %s cancel@event %d (%v): %d further inodes visited", ts, at, evAt(full.events, at), inodesAfter), rp)
+					}
+					if inodesGot < inodesFull && o.status != plugin.ScanStatusFailed {
+						r.Violation("cancelled-with-work-remaining-but-not-failed", fmt.Sprintf("tree %s cancel@event %d (%v): %d of %d inodes visited, status %s", ts, at, evAt(full.events, at), inodesGot, inodesFull, o.statusS), rp)
+					}
 					gotWork := map[string]bool{}
 					for _, w := range work(o.events) {
 						gotWork[w] = true
